@@ -345,6 +345,20 @@ func encode4u(m gmap, lang int) (b []byte, res result) {
 		}
 		res.labels = append(res.labels, "spec-reader:probes")
 	}
+	// a third-party reader (golang.org/x/image) on a font carrying the table
+	if n <= 20000 {
+		if look, err := xLookup(cmap.Key{PlatformID: 3, EncodingID: 1}, b); err != nil {
+			fail("x/image rejects a font carrying the subtable: %v", err)
+		} else {
+			for _, c := range probes(m, 0xFFFF) {
+				if g, err := look(c); err != nil || g != m[c] {
+					fail("x/image GlyphIndex(%d) = %d (err=%v), map has %d", c, g, err, m[c])
+					break
+				}
+			}
+			res.labels = append(res.labels, "x/image-reader")
+		}
+	}
 	// the library's decoder returns the map (glyph 0 entries are dropped)
 	var sub cmap.Subtable
 	var derr error
